@@ -5,6 +5,7 @@ import (
 	"sort"
 	"strconv"
 	"strings"
+	"unsafe"
 
 	"github.com/trajectoryjp/spatial_id_go/v4/common"
 	"github.com/trajectoryjp/spatial_id_go/v4/common/enum"
@@ -101,6 +102,7 @@ func (m *Materializer) list(l []string) (view, buf []string) {
 		buf[i] = sentinel
 	}
 	view = buf[:len(l)] // capacity deliberately larger than length
+	registerInputBuf(buf)
 	if m.Share {
 		m.lists[key] = [2][]string{view, buf}
 	}
@@ -223,7 +225,52 @@ func guard(f func() Result) (res Result) {
 	return f()
 }
 
-func strs(ids []string, err error) Result { return Result{Raw: append([]string(nil), ids...), Err: errStr(err)} }
+// The harness plays a caller that OWNS what a call returns: after copying a result it
+// overwrites the returned slice / objects. A library that hands out memory it keeps using
+// (an internal cache entry returned without a copy, a pooled buffer) then corrupts its own
+// later answers, which the comparison with the reference / solo result shows. Results that
+// alias an input argument (a legal fast path such as `return ids, nil`) are left alone:
+// writing to them would be the harness, not the library, modifying the caller's input.
+const scribble = "<scribbled-by-the-caller>"
+
+var inputBufs [][2]uintptr
+
+func registerInputBuf(b []string) {
+	if len(b) > 0 {
+		lo := uintptr(unsafe.Pointer(unsafe.SliceData(b)))
+		inputBufs = append(inputBufs, [2]uintptr{lo, lo + uintptr(cap(b))*unsafe.Sizeof(b[0])})
+	}
+}
+
+func resetInputBufs() { inputBufs = inputBufs[:0] }
+
+func aliasesInput(ids []string) bool {
+	if cap(ids) == 0 {
+		return true
+	}
+	p := uintptr(unsafe.Pointer(unsafe.SliceData(ids)))
+	for _, r := range inputBufs {
+		if p >= r[0] && p < r[1] {
+			return true
+		}
+	}
+	return false
+}
+
+func scribbleStrings(ids []string) {
+	if aliasesInput(ids) {
+		return
+	}
+	for i := range ids {
+		ids[i] = scribble
+	}
+}
+
+func strs(ids []string, err error) Result {
+	r := Result{Raw: append([]string(nil), ids...), Err: errStr(err)}
+	scribbleStrings(ids)
+	return r
+}
 
 func qvGroups(gs []*object.FromExtendedSpatialIDToQuadkeyAndVerticalID, err error) Result {
 	r := Result{Err: errStr(err)}
@@ -234,6 +281,15 @@ func qvGroups(gs []*object.FromExtendedSpatialIDToQuadkeyAndVerticalID, err erro
 			fmt.Fprintf(&b, "%d,%d;", p[0], p[1])
 		}
 		r.Raw = append(r.Raw, b.String())
+	}
+	for _, g := range gs { // the caller owns the returned objects
+		if g != nil {
+			in := g.InnerIDList()
+			for i := range in {
+				in[i] = [2]int64{-1, -1}
+			}
+			g.SetQuadkeyZoom(-7)
+		}
 	}
 	return r
 }
@@ -247,6 +303,15 @@ func qaGroups(gs []*object.FromExtendedSpatialIDToQuadkeyAndAltitudekey, err err
 			fmt.Fprintf(&b, "%d,%d;", p[0], p[1])
 		}
 		r.Raw = append(r.Raw, b.String())
+	}
+	for _, g := range gs {
+		if g != nil {
+			in := g.InnerIDList()
+			for i := range in {
+				in[i] = [2]int64{-1, -1}
+			}
+			g.SetQuadkeyZoom(-7)
+		}
 	}
 	return r
 }
@@ -521,11 +586,11 @@ func init() {
 		}
 	}
 	reg(&OpSpec{Name: "n6", SetOp: true, Weight: 4, Gen: genOne("n6"),
-		Exec: func(c *Call, a *Args) Result { return Result{Raw: operated.Get6spatialIdsAdjacentToFaces(first(a.IDs))} }})
+		Exec: func(c *Call, a *Args) Result { return strs(operated.Get6spatialIdsAdjacentToFaces(first(a.IDs)), nil) }})
 	reg(&OpSpec{Name: "n8", SetOp: true, Weight: 4, Gen: genOne("n8"),
-		Exec: func(c *Call, a *Args) Result { return Result{Raw: operated.Get8spatialIdsAroundHorizontal(first(a.IDs))} }})
+		Exec: func(c *Call, a *Args) Result { return strs(operated.Get8spatialIdsAroundHorizontal(first(a.IDs)), nil) }})
 	reg(&OpSpec{Name: "n26", SetOp: true, Weight: 4, Gen: genOne("n26"),
-		Exec: func(c *Call, a *Args) Result { return Result{Raw: operated.Get26spatialIdsAroundVoxel(first(a.IDs))} }})
+		Exec: func(c *Call, a *Args) Result { return strs(operated.Get26spatialIdsAroundVoxel(first(a.IDs)), nil) }})
 	reg(&OpSpec{Name: "nlayer", SetOp: true, Dedup: true, Lists: []string{"ids"}, Weight: 12,
 		Gen: func(g *Gen) *Call {
 			hz, vz := g.zoom(0, 35), g.zoom(0, 35)
@@ -822,6 +887,10 @@ func init() {
 		for _, e := range ids {
 			r.Raw = append(r.Raw, e.ID())
 		}
+		for i := range ids {
+			ids[i].SetX(-1)
+			ids[i].SetZoom(-1, -1)
+		}
 		return r
 	}
 	reg(&OpSpec{Name: "tiles_to_ext", SetOp: true, Dedup: true, Lists: []string{"tiles"}, Weight: 12, Gen: genTiles("tiles_to_ext"),
@@ -838,7 +907,7 @@ func init() {
 			vz := max64(0, min64(35, hz+g.R.Range(-4, 4)))
 			return &Call{Op: "ext_to_sp", IDs: g.cluster(hz, vz, 1)}
 		},
-		Exec: func(c *Call, a *Args) Result { return Result{Raw: transform.ConvertExtendedSpatialIDToSpatialIDs(a.Ext)} }})
+		Exec: func(c *Call, a *Args) Result { return strs(transform.ConvertExtendedSpatialIDToSpatialIDs(a.Ext), nil) }})
 
 	// ---- notation conversions on lists (C16 d: inputs untouched; a: repeatable) ----
 	reg(&OpSpec{Name: "sp_to_ext_list", SetOp: true, Weight: 4,
